@@ -271,6 +271,10 @@ func (m *Machine) specEq(a, b Val) *Term {
 		if ok {
 			return Eq(x.M, y.M)
 		}
+	case *SymPtrV:
+		if y, ok := b.(*SymPtrV); ok && len(x.Path) == 0 && len(y.Path) == 0 {
+			return Eq(x.P, y.P)
+		}
 	case *PtrV, *NilV:
 		return m.eqVal(a, b)
 	case *SeqV:
